@@ -215,9 +215,20 @@ def correspondence(ctx):
             base = outs[0]
             for pi, o in enumerate(outs[1:], 1):
                 if o != base:
+                    kind_ = ["list", "tuple", "gen"][pi % 3]
+                    order = {id(c): n for n, c in enumerate(perms[pi])}
+
+                    def differs(sub, kind_=kind_, order=order):
+                        a = impl_dump(call(build, "list", sub))
+                        b = impl_dump(call(build, kind_, sorted(sub, key=lambda c: order[id(c)])))
+                        return a != b
+
+                    small = common.shrink_list(perms[0], differs)
+                    small_perm = sorted(small, key=lambda c: order[id(c)])
                     ctx.fail("perm-invariance: same cells, different order/iterable, different sequence",
-                             {"cells": w_cells(perms[0]), "perm": w_cells(perms[pi]), "iterable": ["list", "tuple", "gen"][pi % 3]},
-                             {"first": base, "other": o})
+                             {"cells": w_cells(small), "perm": w_cells(small_perm), "iterable": kind_,
+                              "shrunk_from_cells": len(perms[0])},
+                             {"first": impl_dump(call(build, "list", small)), "other": impl_dump(call(build, kind_, small_perm))})
                     break
             # iteration / indexing / slices agree with .cells
             st, t = call(build, "list", cells)
